@@ -1,3 +1,21 @@
+import Cello.Heap
+import Cello.HeapOps
 import Driver.Common
-/- driver for engine `gcmark` — stub, replaced when the engine is built -/
-def main (_args : List String) : IO Unit := IO.println "O not-implemented"
+/- driver for engine `gcmark` (C01): interprets the op file of harness/h_gcmark.c on the model
+   (`Cello.Heap.MState.step`: the history ops; collections are `Cello.Heap.gcMark` + `Cello.Heap.sweep`). -/
+open Cello.Heap
+
+def main (args : List String) : IO Unit := do
+  let lines ← Driver.inputLines args
+  let mut st : MState := {}
+  let mut nOps := 0
+  for l in lines do
+    if Driver.isSkippable l then continue
+    if l.length ≥ 65536 then
+      IO.println "O bad-op"
+      continue
+    let (st', out) := st.step (Driver.words l)
+    st := st'
+    nOps := nOps + 1
+    for o in out do IO.println o
+  IO.println s!"S ops={nOps} collections={st.nCollect} marked={st.nMarked} freed={st.nFreed} live-at-end={st.objs.size}"
